@@ -62,7 +62,20 @@ func pinHTTPPath(basePath, kind, hash, mode string) string {
 	return basePath + "/" + kind + "/" + hash
 }
 
+// pinNormPrefix: the configured prefix as every 2.x release applies it - empty and "." segments dropped (a trailing
+// slash, a doubled slash or a leading "./" in the configured value do not change any object name).
+func pinNormPrefix(prefix string) string {
+	var segs []string
+	for _, sg := range strings.Split(prefix, "/") {
+		if sg != "" && sg != "." {
+			segs = append(segs, sg)
+		}
+	}
+	return strings.Join(segs, "/")
+}
+
 func pinObjectKey(prefix, kind, hash, mode string) string {
+	prefix = pinNormPrefix(prefix)
 	k := kind + "/" + hash[:2] + "/" + hash
 	if kind == "cas" && mode == "zstd" {
 		k = "cas.v2/" + hash[:2] + "/" + hash
@@ -76,6 +89,7 @@ func pinObjectKey(prefix, kind, hash, mode string) string {
 func pinAzurePath(container, prefix, kind, hash, mode string) string {
 	k := pinObjectKey(prefix, kind, hash, mode)
 	if prefix != "" {
+		// (the second application is verbatim: what the releases do, pinned as observed on the unchanged build)
 		k = prefix + "/" + k
 	}
 	return "/" + container + "/" + k
@@ -151,6 +165,8 @@ func prefixClass(p string) string {
 	switch {
 	case p == "":
 		return "none"
+	case p != pinNormPrefix(p):
+		return "not-normalised"
 	case strings.Contains(p, "/"):
 		return "p/q"
 	}
@@ -205,6 +221,10 @@ func (w *nameWorld) backendGroup(backend string, group, k int) {
 	prefixes := []string{"", p, p + "/" + word()}
 	if backend == "grpc" {
 		prefixes = []string{""}
+	}
+	if backend == "s3" || backend == "azure" {
+		// configured values that are not in normal form (own words, so that no two instances share a name space)
+		prefixes = append(prefixes, word()+"x/", word()+"y//"+word(), "./"+word()+"z")
 	}
 
 	// hashes: random, plus pairs sharing their first two characters
